@@ -115,7 +115,9 @@ def _structures(tier):
                     for nvar in ((1,) if tier == "quick" and off else (1, 2)):
                         S_.append((fk, ck, 2020 * FREQ[fk] + off, n, nvar, miss))
     # daily -> monthly around the end of February of a leap and a non-leap year, and a year end
-    for (y, m, d, n) in ((2024, 2, 27, 5), (2023, 2, 26, 5), (2023, 12, 30, 4)) if tier == "quick" else ((2024, 2, 27, 5), (2023, 2, 26, 5), (2023, 12, 30, 4), (2000, 2, 28, 3), (1900, 2, 27, 4)):
+    # (and series that END on 31 / 30 December of a leap year: the padded window of the last period must reach the calendar year end)
+    for (y, m, d, n) in ((2024, 2, 27, 5), (2023, 2, 26, 5), (2023, 12, 30, 4), (2024, 12, 29, 3), (2024, 12, 28, 3)) if tier == "quick" else \
+            ((2024, 2, 27, 5), (2023, 2, 26, 5), (2023, 12, 30, 4), (2024, 12, 29, 3), (2024, 12, 28, 3), (2020, 12, 30, 2), (2023, 12, 29, 3), (2000, 2, 28, 3), (1900, 2, 27, 4)):
         S_.append(("D", "M", calstub.days_from_civil(y, m, d), n, 1, ()))
         S_.append(("D", "M", calstub.days_from_civil(y, m, d), n, 1, (1,)))
     return S_
